@@ -201,10 +201,12 @@ def generate_locks():
     rc, out, err = run(["go", "build", "-o", binp + ".%d" % os.getpid(), "."], cwd=src, env=GOENV, timeout=600)
     if rc != 0: return False, "lock extractor does not build: " + (out + err)[-800:]
     os.replace(binp + ".%d" % os.getpid(), binp)
-    rc, out, err = run([binp, REPO, os.path.join(LEAN, "FV", "Generated", "Locks.lean")], timeout=120)
+    rc, out, err = run([binp, REPO, os.path.join(LEAN, "FV", "Generated", "Locks.lean"),
+                        os.path.join(VERIF, "known", "locks_unguarded_expected.txt")], timeout=120)
     if rc != 0: return False, "census:Locks " + (out + err).strip()[-800:]
     global LOCKS_REPORT
-    LOCKS_REPORT = out.strip()   # NESTED / LEAK lines (informative; the Lean theorem decides)
+    # NESTED / LEAK / COPY / SHARED / SHAREDCTOR / UNGUARDED lines (informative; the Lean theorems decide)
+    LOCKS_REPORT = "\n".join(l for l in out.strip().split("\n") if l and not l.startswith("NOTE"))
     return True, ""
 
 class Results:
